@@ -480,7 +480,8 @@ def edit_source(rng, src_root, out_root):
         # a link becomes a real DIRECTORY with content; one child has the name, size and mtime of a file in the outside
         # area (through a stale destination link it would be judged up to date), the others would be created through it
         p = rng.pick(links); os.unlink(p); os.makedirs(os.path.join(p, "inner"))
-        for nm, body, tt in (("sentinel.txt", b"SENTINEL", BASE_T * 10**9), ("fresh.txt", b"fresh", t), ("inner/deep.bin", b"deep" * 50, t)):
+        for nm, body, tt in (("sentinel.txt", b"SENTINEL", BASE_T * 10**9), ("big_sentinel.bin", bytes(reversed(range(256))) * 40, BASE_T * 10**9),
+                             ("fresh.txt", b"fresh", t), ("inner/deep.bin", b"deep" * 50, t)):
             with open(os.path.join(p, nm), "wb") as f: f.write(body)
             os.utime(os.path.join(p, nm), ns=(tt, tt))
     elif k == 0 and links:
